@@ -234,16 +234,9 @@ func (s *stripDelIterator) Next() bool {
 	return false
 }
 
-// compareBytes like bytes.Compare but treats nil as max value
+// compareBytes compares the keys of two live entries. An exhausted iterator is recognised by
+// HasNext, never by its key: a nil key here is the empty key of an entry (what a contract's
+// empty key becomes on its way through the syscall encoding) and sorts first, like []byte{}.
 func compareBytes(k1, k2 []byte) int {
-	if k1 == nil && k2 == nil {
-		return 0
-	}
-	if k1 == nil {
-		return 1
-	}
-	if k2 == nil {
-		return -1
-	}
 	return bytes.Compare(k1, k2)
 }
